@@ -14,7 +14,7 @@ import (
 // Probe kinds: calls whose outcome the model does not predict. They are traced (panic yes/no, resulting state) so
 // that executions under different build configurations can be compared with each other (C20).
 var probeKinds = []string{
-	"q-next-after-exhaustion-other-open", "q-entity-before-next", "q-get-before-next", "q-entity-after-exhaustion", "q-get-after-exhaustion", "q-next-after-exhaustion", "q-next-twice-after-exhaustion", "q-next-twice-after-close",
+	"q-next-after-exhaustion-other-open", "q-copy-closed-after-original-finished", "q-entity-before-next", "q-get-before-next", "q-entity-after-exhaustion", "q-get-after-exhaustion", "q-next-after-exhaustion", "q-next-twice-after-exhaustion", "q-next-twice-after-close",
 	"q-next-after-close", "q-entity-after-close", "q-count-after-close", "q-relation-before-next",
 	"unsafe-get-missing", "unsafe-getrel-missing", "unsafe-has-missing", "map-get-missing", "map-set-missing", "mapn-set-missing", "mapn-getrel-missing",
 	"map-getunchecked-dead", "unsafe-hasunchecked-dead", "unsafe-getunchecked-dead", "unsafe-getrelunchecked-dead", "map-getrelunchecked-dead",
@@ -105,6 +105,37 @@ func (it *Interp) execProbe(b *Backend, op *Op) string {
 		default:
 			return fmt.Sprint(q.GetRelation(0))
 		}
+	case "q-copy-closed-after-original-finished":
+		// query values are plain structs: a copy taken after a successful Next goes stale when the original runs to its
+		// end (which releases the lock); the stale copy is then closed (rejected: unbalanced unlock) and asked
+		out := ""
+		{
+			q := ecs.NewUnsafeFilter(b.W).Query()
+			if !q.Next() {
+				return "empty"
+			}
+			cp := q
+			for q.Next() {
+			}
+			p1 := try(func() { cp.Close() })
+			p2 := try(func() { _ = cp.Entity() })
+			p3 := try(func() { cp.Close() })
+			out += fmt.Sprint("unsafe close:", p1 != nil, " entity:", p2 != nil, " close again:", p3 != nil, " locked:", b.W.IsLocked() != (it.M.OpenQ > 0))
+		}
+		{
+			q := b.all.Query()
+			if !q.Next() {
+				return out + " empty"
+			}
+			cp := q
+			for q.Next() {
+			}
+			p1 := try(func() { cp.Close() })
+			p2 := try(func() { _ = cp.Entity() })
+			p3 := try(func() { cp.Close() })
+			out += fmt.Sprint(" typed close:", p1 != nil, " entity:", p2 != nil, " close again:", p3 != nil, " locked:", b.W.IsLocked() != (it.M.OpenQ > 0))
+		}
+		return out
 	case "q-next-after-exhaustion-other-open":
 		// a finished query is advanced again while another query, opened after it finished, holds the recycled lock bit
 		a := b.openQueryOn(it.M, op.F, nil)
